@@ -131,6 +131,7 @@ StageLabel(s) == CASE s = "wl" -> "hs_wl_lock" [] s = "wf" -> "hs_wf" [] s = "r"
 CnUsesIn == "cn_in" \in Mut
 \* mutation ku_nolock: the KeyUpdate reply is sealed and sent, and the sending keys rotated, without c.out
 KuNoLock == "ku_nolock" \in Mut
+AlNoLock == "al_nolock" \in Mut
 
 ----------------------------------------------------------------------------
 (* enabling condition of the single action available at each control point *)
@@ -146,7 +147,7 @@ Guard(g) ==
     [] pc[g] = "rd_lock"    -> inMu = 0
     [] pc[g] = "rd_net"     -> ROk \/ RFail
     [] pc[g] = "rd_ku_lock" -> KuNoLock \/ outMu = 0
-    [] pc[g] = "rd_al_lock" -> outMu = 0
+    [] pc[g] = "rd_al_lock" -> AlNoLock \/ outMu = 0
     [] pc[g] = "rn_lock"    -> hsMu = 0
     [] pc[g] = "wr_outlock" -> outMu = 0
     [] pc[g] = "cn_lock"    -> IF CnUsesIn THEN inMu = 0 ELSE outMu = 0
@@ -194,7 +195,7 @@ LocksAt(l) ==
     [] l \in {"hs_wl_lock", "hs_wl_w"} -> {"hs", "in", "out"}
     [] l \in {"rd_lock", "rd_net", "rd_unl"} -> {"in"}
     [] l \in {"rd_ku_lock", "rd_ku_w"} -> IF KuNoLock THEN {"in"} ELSE {"in", "out"}
-    [] l \in {"rd_al_lock", "rd_al_w"} -> {"in", "out"}
+    [] l \in {"rd_al_lock", "rd_al_w"} -> IF AlNoLock THEN {"in"} ELSE {"in", "out"}
     [] l \in {"rn_lock", "rn_unl"} -> {"hs", "in"}
     [] l \in {"wr_outlock", "wr_net", "wr_unl"} -> {"out"}
     [] l \in {"cn_lock", "cn_net", "cn_unl"} -> {CnLockName}
@@ -328,6 +329,7 @@ RdNet(g) ==
         /\ inQ' = Tail(inQ)
         /\ LET k == Head(inQ) e == [t |-> "r", g |-> g] IN
            IF k = "ku" /\ outMu # 0 THEN LogT(e, "ku_wait")
+           ELSE IF k = "bad" /\ outMu # 0 THEN LogT(e, "bad_wait")
            ELSE IF k = "hr" /\ hsMu # 0 THEN LogT(e, "rn_wait")
            ELSE IF k = "hr" THEN LogT(e, "rn") ELSE Log(e)
         \* mutation rn_store_early: handshakeStatus is reset before handshakeMutex is taken
@@ -338,6 +340,9 @@ RdNet(g) ==
              [] k \in {"hs", "kun"} -> Goto(g, "rd_net") /\ UNCHANGED <<inLeft, inErr>>   \* ticket / KeyUpdate
                                                                \* without request: c.in only, loop
              [] k = "hr" -> Goto(g, IF Reneg THEN "rn_lock" ELSE "rd_al_lock") /\ UNCHANGED <<inLeft, inErr>>
+             \* a record that fails authentication: sendAlert(bad_record_mac) takes c.out while c.in is held,
+             \* then the error sticks in c.in.err (set here already: nobody can see it before c.in is released)
+             [] k = "bad" -> Goto(g, "rd_al_lock") /\ inErr' = TRUE /\ UNCHANGED inLeft
              [] k = "ku" -> Goto(g, "rd_ku_lock") /\ UNCHANGED <<inLeft, inErr>>
              [] k = "cn" -> Goto(g, "rd_unl") /\ inErr' = TRUE /\ UNCHANGED inLeft   \* io.EOF
      \/ \* the close-notify alert was delivered together with the last application record: Read
@@ -373,16 +378,17 @@ RdKuW(g) ==
 
 \* HelloRequest with Config.Renegotiation = RenegotiateNever: sendAlert(no_renegotiation) takes c.out
 \* while c.in is held; sendAlertLocked leaves the alert as the permanent c.out.err; Read returns it
+\* (mutation al_nolock: sendAlertLocked instead of sendAlert - the alert is sealed and sent without c.out)
 RdAlLock(g) ==
-  /\ pc[g] = "rd_al_lock" /\ outMu = 0
-  /\ outMu' = g
+  /\ pc[g] = "rd_al_lock"
+  /\ IF AlNoLock THEN UNCHANGED outMu ELSE outMu = 0 /\ outMu' = g
   /\ Goto(g, "rd_al_w")
   /\ SealU(g)
   /\ NoLog /\ UNCHANGED <<prog, ci, x, frag, hsok, hsMu, inMu, conn, net, mon, rn>>
 
 RdAlW(g) ==
   /\ pc[g] = "rd_al_w"
-  /\ outMu' = 0
+  /\ IF AlNoLock THEN UNCHANGED outMu ELSE outMu' = 0
   /\ \/ WOk   /\ Log([t |-> "w", g |-> g]) /\ WireU(g)
      \/ WFail /\ NoLog /\ DropU(g)
   /\ outErr' = TRUE
@@ -658,7 +664,8 @@ Mutex == \A g, h \in G : g # h =>
 
 \* the holder variables agree with the control points
 Holders == /\ \A g \in G : InIn(g) => inMu = g
-           /\ \A g \in G : pc[g] \in {"hs_wl_w", "rd_al_w", "wr_net", "wr_unl"} \cup (IF KuNoLock THEN {} ELSE {"rd_ku_w"})
+           /\ \A g \in G : pc[g] \in {"hs_wl_w", "wr_net", "wr_unl"} \cup (IF KuNoLock THEN {} ELSE {"rd_ku_w"})
+                                       \cup (IF AlNoLock THEN {} ELSE {"rd_al_w"})
                               => outMu = g
            /\ \A g \in G : (InHs(g) /\ pc[g] # "cs_read") => hsMu = g
 
@@ -719,7 +726,7 @@ WitView == <<ctl, locks, conn, net, mon, ext, tags>>
 WitBound == tags = {} /\ Len(hist) <= WitLen
 WitEmit == tags # {} => PrintT(ToJson([progs |-> [i \in 1..Cardinality(G) |-> prog[i]], ev |-> hist,
                                         tag |-> CHOOSE t \in tags : TRUE]))
-AllTags == {"ku_wait", "rn", "rn_wait", "peek", "cdw", "wr_shutdown", "wr_closed", "cn_fail", "hs_fail", "rd_left", "rd_inerr", "cl_twice",
+AllTags == {"bad_wait", "ku_wait", "rn", "rn_wait", "peek", "cdw", "wr_shutdown", "wr_closed", "cn_fail", "hs_fail", "rd_left", "rd_inerr", "cl_twice",
             "early_cw", "rd_timeout", "wr_timeout"}
 Emit == AllDone => PrintT(ToJson([progs |-> [i \in 1..Cardinality(G) |-> prog[i]], ev |-> hist]))
 =============================================================================
